@@ -321,6 +321,35 @@ func extraScenarios(pb int) []*explore.Scenario {
 		vrt.Go("lookup", func() { a.LookupPublicKey(ctx, dst); a.LocalAddrs(); a.PublicKey(); a.MTU() })
 		vrt.Go("closer", func() { vrt.PointAlways("close"); a.Close(); cf(); b.Close(); c.Close() })
 	}))
+	// mbapp: one two-part message reassembled by two receive workers (each worker may hold one
+	// part); the callback reads the whole payload
+	out = append(out, simple("mbapp-multipart-two-workers", pb, func(x *vrt.Exec) {
+		x.NumWorkers = 2
+		st := stacks.Build(stacks.Config{Kind: "mbapp", N: 2, InnerMTU: 64, MTU: 200, Workers: 2})
+		bg := context.Background()
+		ctx, cf := hx.WithCancel(bg)
+		sum := 0
+		vrt.Go("recv", func() {
+			st.Nodes[0].Receive(ctx, func(m stacks.Msg) {
+				for _, c := range m.Payload {
+					sum += int(c)
+				}
+			})
+			x.NoBranch = true
+			cf()
+			for _, n := range st.Nodes {
+				n.Close()
+			}
+		})
+		x.Settle()
+		vrt.Go("tell", func() {
+			payload := make([]byte, 70) // part = 40: two parts
+			for i := range payload {
+				payload[i] = byte(i + 1)
+			}
+			st.Nodes[1].Tell(bg, 0, p2p.IOVec{payload})
+		})
+	}))
 	// mbapp: two concurrent asks to one server with two receive workers
 	out = append(out, simple("mbapp-asks-concurrent", pb, func(x *vrt.Exec) {
 		x.NumWorkers = 2
